@@ -24,12 +24,13 @@ var c18Users = []userSpec{
 }
 
 var c18Cfgs = []cfgSpec{
-	{Kind: "valid", Default: 1, Dir: "A"},      // 0: initial
-	{Kind: "valid", Default: 2, Dir: "B"},      // 1: everything different
-	{Kind: "unparsable", Default: 2, Dir: "B"}, // 2
-	{Kind: "badcheck", Default: 2, Dir: "B"},   // 3: loads, but the directory fails the check
-	{Kind: "same", Default: 1, Dir: "A"},       // 4
-	{Kind: "valid", Default: 3, Dir: "A"},      // 5: same directory, other default
+	{Kind: "valid", Default: 1, Dir: "A"},                // 0: initial
+	{Kind: "valid", Default: 2, Dir: "B"},                // 1: everything different
+	{Kind: "unparsable", Default: 2, Dir: "B"},           // 2
+	{Kind: "badcheck", Default: 2, Dir: "B"},             // 3: loads, but the directory fails the check
+	{Kind: "same", Default: 1, Dir: "A"},                 // 4
+	{Kind: "valid", Default: 3, Dir: "A"},                // 5: same directory, other default
+	{Kind: "samedir-sets-removed", Default: 2, Dir: "A"}, // 6: same directory, loads, but the check fails
 }
 
 func c18Scenarios(thorough bool) []*scenario {
@@ -48,6 +49,8 @@ func c18Scenarios(thorough bool) []*scenario {
 		mk("good-then-bad", []cop{upd("u", "n"), a("u", "pwB")}, []cop{hup(1), hup(3)}),
 		mk("other-default-same-dir", []cop{upd("u", "n"), a("u", "n")}, []cop{hup(5)}),
 		mk("no-clients-three-signals", []cop{{Kind: "check"}}, []cop{hup(1), hup(2), hup(5)}),
+		mk("same-dir-failing-check", []cop{a("u", "pwA"), upd("u", "n"), a("u", "n")}, []cop{hup(6)}),
+		mk("same-dir-failing-check-then-good", []cop{a("u", "pwA")}, []cop{hup(6), hup(5)}),
 	}
 	if thorough {
 		out = append(out,
